@@ -137,9 +137,9 @@ theorem int_div_zero (a : W) :
     evalBin table "//" (I a) (I 0) = .panic ∧ evalBin table "%" (I a) (I 0) = .panic ∧
     evalBuiltin table "divmod" [I a, I 0] = .panic := by
   refine ⟨?_, ?_, ?_⟩
-  · show Res.ofOpt "int" (idiv_s a 0) = _; simp [idiv_s, idivmod_s_zero, Res.ofOpt]
-  · show Res.ofOpt "int" (imod_s a 0) = _; simp [imod_s, idivmod_s_zero, Res.ofOpt]
-  · show tagPair "tuple[int, int]" (idivmod_s a 0) = _; simp [idivmod_s_zero, tagPair]
+  · show Res.ofOpt "int" (idiv_s a 0) = _; simp [idiv_s, idivmod_s, Res.ofOpt]
+  · show Res.ofOpt "int" (imod_s a 0) = _; simp [imod_s, idivmod_s, Res.ofOpt]
+  · show tagPair "tuple[int, int]" (idivmod_s a 0) = _; simp [idivmod_s, tagPair]
 
 /-- counterexamples to the full statements: `7 // -2` is `-4` and `7 % -2` is `-1` in Python; the code divides
     by `2^64 - 2` and returns `0` and `7` -/
